@@ -251,7 +251,10 @@ func (s *Server) publishDiagnostics(ctx context.Context, docURI protocol.Documen
 		return
 	}
 	resolved, loadErrors := s.loader.LoadFromContent(path, content)
-	s.resolved.Store(docURI, resolved)
+	// Analyses finish in any order: an older one must not replace the tree of a newer text.
+	if current, ok := s.GetDocument(docURI); !ok || current == content {
+		s.resolved.Store(docURI, resolvedTree{content: content, journal: resolved})
+	}
 	verifhook.Point("pd.loaded", string(docURI))
 
 	diagnostics := s.analyze(content, resolved)
@@ -496,13 +499,35 @@ func uriToPath(docURI protocol.DocumentURI) string {
 	return filepath.Clean(path)
 }
 
+// resolvedTree is the include tree of a document together with the text it was
+// resolved from.
+type resolvedTree struct {
+	content string
+	journal *include.ResolvedJournal
+}
+
+// GetResolved returns the include tree of an open document. The tree is computed in
+// the background after every change; a request that arrives before that work is done
+// (or after an older analysis finished last) must not be answered from the tree of an
+// older text, so the tree is resolved on the spot when it does not belong to the
+// document's current text.
 func (s *Server) GetResolved(docURI protocol.DocumentURI) *include.ResolvedJournal {
-	if r, ok := s.resolved.Load(docURI); ok {
-		if resolved, ok := r.(*include.ResolvedJournal); ok {
-			return resolved
-		}
+	var tree resolvedTree
+	r, known := s.resolved.Load(docURI)
+	if known {
+		tree, known = r.(resolvedTree)
 	}
-	return nil
+	current, open := s.GetDocument(docURI)
+	if !open || (known && current == tree.content) {
+		return tree.journal
+	}
+	path := uriToPath(docURI)
+	if path == "" {
+		return tree.journal
+	}
+	resolved, _ := s.loader.LoadFromContent(path, current)
+	s.resolved.Store(docURI, resolvedTree{content: current, journal: resolved})
+	return resolved
 }
 
 func (s *Server) getWorkspaceResolved(docURI protocol.DocumentURI) *include.ResolvedJournal {
